@@ -572,6 +572,7 @@ type Contract struct {
 	Names      []string             // `names a b | r | x y`: the declared variables (receiver+params | named results | locals, declaration order) when the contract was written
 	NamesIn    int                  // ... how many of them are receiver+parameters
 	NamesOut   int                  // ... and named results
+	Quiet      []string             // lemma functions: callees whose postconditions are NOT assumed at their call sites (frames still apply); dropping hypotheses is sound and keeps product-program VCs small
 	Reveal     []string             // `reveal spec.x`: prelude axioms annotated `;@ needs x` are shipped with this function's VCs (x need not be a declared symbol)
 	Hide       []string             // spec functions whose defining axioms (`;@ defines f` in the prelude) are not shipped with this function's VCs
 	Inlines    []string             // lemma functions: callees to execute by their bodies although they have contracts
@@ -608,7 +609,7 @@ type ContractSet struct {
 var clauseKeywords = map[string]bool{
 	"func": true, "props": true, "requires": true, "ensures": true, "assigns": true, "loop": true, "alias": true,
 	"inline": true, "trusted": true, "panics": true, "nooverflow": true, "lemma": true, "pure": true, "opaque": true,
-	"extern": true, "assert": true, "fresh": true, "maybenil": true, "package": true, "pred": true, "tagset": true, "aset": true, "reads": true, "inlines": true, "unroll": true, "exit": true, "use": true, "hide": true, "after": true, "uselate": true, "goto": true, "return": true, "reveal": true, "names": true,
+	"extern": true, "assert": true, "fresh": true, "maybenil": true, "package": true, "pred": true, "tagset": true, "aset": true, "reads": true, "inlines": true, "unroll": true, "exit": true, "use": true, "hide": true, "after": true, "uselate": true, "goto": true, "return": true, "reveal": true, "names": true, "quiet": true,
 }
 
 // assignSets: `//@ aset name := $.f, $.g[0:4]` — a reusable list of assigns items, `$` is the argument.
@@ -1046,6 +1047,8 @@ func (cs *ContractSet) ReadFile(path, pkgName string, external bool) error {
 					}
 					cur.Names = append(cur.Names, fs...)
 				}
+			case "quiet":
+				cur.Quiet = append(cur.Quiet, strings.Fields(strings.ReplaceAll(rest, ",", " "))...)
 			case "reveal":
 				cur.Reveal = append(cur.Reveal, strings.Fields(strings.ReplaceAll(rest, ",", " "))...)
 			case "inlines":
